@@ -98,7 +98,32 @@ func (w *world) getNotifications(ctx context.Context, req *proto.NotificationsRe
 }
 
 func (w *world) viol(sig, format string, a ...any) {
-	w.o.Violation(sig, fmt.Sprintf("%s after [%s]: ", w.tag, strings.Join(w.ops, ";"))+fmt.Sprintf(format, a...))
+	w.o.Violation(sig, fmt.Sprintf("%s after [%s]: ", w.tag, abbrevOps(w.ops))+fmt.Sprintf(format, a...))
+}
+
+// abbrevOps keeps a long schedule printable: runs of writes are summarised, long stream results are not part of it anyway.
+func abbrevOps(ops []string) string {
+	if len(ops) < 80 {
+		return strings.Join(ops, ";")
+	}
+	var out []string
+	run := 0
+	flush := func() {
+		if run > 0 {
+			out = append(out, fmt.Sprintf("<%d writes>", run))
+			run = 0
+		}
+	}
+	for _, op := range ops {
+		if strings.HasPrefix(op, "W:") {
+			run++
+			continue
+		}
+		flush()
+		out = append(out, op)
+	}
+	flush()
+	return strings.Join(out, ";")
 }
 
 func (w *world) record(op, res string) {
@@ -743,6 +768,55 @@ func scriptBehindTrimThenWrites(w *world) {
 	w.o.Count("scenario:behind-trim-then-writes")
 }
 
+// bulk: n small writes; the stored batch is checked for every 40th; a pause of two milliseconds at the given offsets, so that
+// a trimming round can cut exactly there (the leader stamps wall-clock milliseconds)
+func (w *world) bulk(n int, pauseBefore map[int64]bool) {
+	for i := 0; i < n; i++ {
+		if pauseBefore[w.nextOff] {
+			time.Sleep(2 * time.Millisecond)
+		}
+		req := &wreq{puts: []putOp{{key: keys[i%7], value: []byte{byte('0' + i%10)}}}}
+		res := w.applyWrite(req)
+		w.record(req.String(), res)
+		if i%40 == 0 {
+			w.checkStored(req.offset, "request "+req.String())
+		}
+	}
+}
+
+// scale: hundreds of offsets. A trimming round removes the long prefix 0..t, so that a subscriber resuming at s < t finds
+// t-s offsets without a batch in front of the retained ones: 99 / 100 / 101 / many; backlogs of > 100 and > 1000 batches
+// for raw streams and for the client manager.
+func scriptScale(n int) func(w *world) {
+	return func(w *world) {
+		t := int64(100 + w.rng.Intn(n/3))
+		w.clientConnect(0, 1, false) // a client initialised at the very beginning: it will have the whole backlog to catch up
+		w.bulk(n, map[int64]bool{t + 1: true})
+		last := w.nextOff - 1
+		none := func() map[gatePoint]int { return map[gatePoint]int{} }
+		for _, s := range []int64{-1, last - 101, last - 100} {
+			w.gatedStream(p64(s), none(), "scale: backlog")
+		}
+		w.clientConnect(0, allBatches, false)
+		w.clientConnect(1, 3, false) // a second client that has seen offsets 0 and 1 only
+		_, byOff := w.storedOffsets()
+		w.trim(int64(byOff[t].Timestamp)+1000, 1000) // everything up to t has expired, t+1.. is retained
+		offs, _ := w.storedOffsets()
+		if len(offs) == 0 || offs[0] != t+1 {
+			w.o.Count("scale:trim-cut-not-exact")
+		}
+		for _, s := range []int64{-1, 10, t - 101, t - 100, t - 99, t - 98, t - 1, t, t + 1} {
+			w.gatedStream(p64(s), none(), "scale: resuming in front of a trimmed run")
+		}
+		w.clientConnect(1, allBatches, false)
+		w.write(w.genRequest())
+		for _, s := range []int64{10, t - 100, t} {
+			w.gatedStream(p64(s), none(), "scale: after a later commit")
+		}
+		w.o.Count("scenario:scale")
+	}
+}
+
 func (w *world) randomPlan() map[gatePoint]int {
 	plan := map[gatePoint]int{}
 	for i, n := 0, 1+w.rng.Intn(3); i < n; i++ {
@@ -860,6 +934,10 @@ func scriptRandom(w *world) {
 func genCases(o *hx.Out, rng *hx.Rng, n int) {
 	runScenario(o, rng.Fork(), "empty-shard-reconnect", scriptEmptyShardReconnect)
 	runScenario(o, rng.Fork(), "gated-positions", scriptGated)
+	runScenario(o, rng.Fork(), "scale-300", scriptScale(150+rng.Intn(250)))
+	if n >= 100 {
+		runScenario(o, rng.Fork(), "scale-1100", scriptScale(1100))
+	}
 	runScenario(o, rng.Fork(), "behind-trim-then-writes", scriptBehindTrimThenWrites)
 	for c := 0; c < n; c++ {
 		crng := rng.Fork()
